@@ -392,6 +392,7 @@ func (e *Engine) runPath(ex *Exec, h *ssa.Function) (status string, msg string) 
 		}
 	}()
 	ex.call(h, nil, nil)
+	ex.yield() // goroutines still queued when the harness returns run now (their run-time checks count)
 	return "done", ""
 }
 
